@@ -226,9 +226,19 @@ func runEdge(e *Edge, isSync bool) (obs Step, kind, detail string) {
 
 // waitCallbacks lets asynchronously delivered callbacks arrive: it waits until at least want are recorded
 // (want < 0: just settle), then yields a little so that a surplus callback would be seen as well.
+var waitTimeouts int // after a few genuine time-outs (callbacks that never come) stop paying the full grace period
+
 func waitCallbacks(r *real, want int) {
-	deadline := time.Now().Add(20 * time.Second)
-	for want > 0 && r.count() < want && time.Now().Before(deadline) {
+	grace := 20 * time.Second
+	if waitTimeouts >= 3 {
+		grace = 200 * time.Millisecond
+	}
+	deadline := time.Now().Add(grace)
+	for want > 0 && r.count() < want {
+		if !time.Now().Before(deadline) {
+			waitTimeouts++
+			break
+		}
 		runtime.Gosched()
 	}
 	for i := 0; i < 20; i++ {
